@@ -179,6 +179,18 @@ def make_replay(pid, name, ob, res, contract, reg, mod):
     solver_out = {'status': res['status'], 'backend': res['backend'], 'tried': res.get('tried'),
                   'model': {k: v for k, v in list((res.get('model') or {}).items())[:60]}}
     custom = getattr(mod, 'REPLAY', {}).get(contract.name)
+    if getattr(ob, 'replay_code', None):
+        # a closed obligation with its own demonstration: the program gets the solver's model and runs the real code
+        src = ('#!/venv/bin/python\n"""Replay for property %s, failed obligation %s\nclause: %s\n"""\nimport sys, os\n'
+               'sys.path.insert(0, os.path.join(os.environ.get("PYVC_REPO", "/repo"), "src"))\nMODEL = %r\n'
+               % (pid, name, ob.note.replace('"""', "'''"), solver_out['model'])) + ob.replay_code
+        with open(path, 'w') as f:
+            f.write(src)
+        try:
+            p_ = subprocess.run([VENV_PY, path], capture_output=True, text=True, timeout=300, cwd=VERIF)
+            return path, p_.returncode == 1
+        except subprocess.TimeoutExpired:
+            return path, False
     try:
         if getattr(contract, 'crosscheck', True) is False and not getattr(contract, 'native_gen', None):
             # the contract is stated over an abstraction the native judge cannot build or evaluate (ids for names, abstract
